@@ -70,6 +70,29 @@ def hc_seeded(V, times, aligns):
 
     saved = hc.random
     saved_min = hc.HillClimbAllocator.MIN_ITERATIONS_IMPROVE
+    # a generator object kept at module level survives from one allocation to the next: its draws are symbolic as well (arbitrary state), and they
+    # only count as reproducible if THIS allocation seeds that generator first
+    import random as _random
+
+    private = {n: o for n, o in vars(hc).items() if isinstance(o, _random.Random)}
+
+    class PR:
+        def __init__(self, name):
+            self.name = name
+
+        def seed(self, x=None, *a):
+            log.append(("seed", x))
+
+        def randint(self, a, b):
+            return R.randint(a, b)
+
+        def __getattr__(self, nme):
+            def other(*a, **k):
+                raise core.Unmodelled("Random.%s" % nme)
+            return other
+
+    for n_ in private:
+        setattr(hc, n_, PR(n_))
     hc.random = R()
     hc.HillClimbAllocator.MIN_ITERATIONS_IMPROVE = 1
     try:
@@ -77,6 +100,8 @@ def hc_seeded(V, times, aligns):
             hc.HillClimbAllocator(lrs, 1, 0).allocate()
     finally:
         hc.random = saved
+        for n_, o in private.items():
+            setattr(hc, n_, o)
         hc.HillClimbAllocator.MIN_ITERATIONS_IMPROVE = saved_min
     draws = [i for i, e in enumerate(log) if e[0] == "draw"]
     if not draws:
